@@ -65,6 +65,9 @@ func (s *rangeset[T]) add(start, end T) {
 
 // sub removes [start, end) from the set.
 func (s *rangeset[T]) sub(start, end T) {
+	if start == end {
+		return
+	}
 	removefrom, removeto := -1, -1
 	for i := range *s {
 		r := &(*s)[i]
